@@ -99,7 +99,7 @@ Lemma complete_hit b s r t : q s = r :: t ->
   tok (complete b s r) = tok s /\ conn (complete b s r) = conn s /\ paused (complete b s r) = paused s.
 Proof.
   intros H. unfold complete. rewrite H, Z.eqb_refl.
-  destruct (b && (1 <=? readyC _)); cbn; repeat split; reflexivity.
+  cbn. repeat split; reflexivity.
 Qed.
 
 Lemma conclude_core s r k :
@@ -144,7 +144,7 @@ Lemma complete_frame b s r :
 Proof.
   unfold complete. destruct (q s) as [|h t]; [repeat split; reflexivity|].
   destruct (h =? r); [|repeat split; reflexivity].
-  destruct (b && (1 <=? readyC _)); cbn; repeat split; reflexivity.
+  cbn; repeat split; reflexivity.
 Qed.
 
 Lemma dispatch_frame s :
@@ -330,8 +330,7 @@ Qed.
 
 Lemma complete_closing b s r : closing (complete b s r) = closing s.
 Proof.
-  unfold complete. destruct (q s) as [|h t]; [reflexivity|]. destruct (h =? r); [|reflexivity].
-  match goal with |- context [if ?c then _ else _] => destruct c end; reflexivity.
+  unfold complete. destruct (q s) as [|h t]; [reflexivity|]. destruct (h =? r); reflexivity.
 Qed.
 
 Lemma G2_complete_conclude b s r k : G2 s -> G2 (conclude (complete b s r) r k).
@@ -603,8 +602,10 @@ Proof.
   - (* Reconn *)
     cbn [step]. destruct (negb (conn s) && started s && negb (closing s)) eqn:E; [|exact S].
     apply andb_true_iff in E as [E _]. apply andb_true_iff in E as [_ Est]. cbv zeta.
-    destruct (negb (pend (set_paused (emit (set_conn s true) (EReconn (now s))) false) =? 0)) eqn:Ep;
-      cbn in Ep; constructor; cbn; rewrite ?Ecc; fin; closer Sf.
+    change (readyC (set_paused (emit (set_conn s true) (EReconn (now s))) false)) with (readyC s).
+    destruct (1 <=? readyC s) eqn:Er; [apply Z.leb_le in Er|apply Z.leb_gt in Er];
+    (destruct (negb (pend (set_paused (emit (set_conn s true) (EReconn (now s))) false) =? 0)) eqn:Ep;
+      cbn in Ep; constructor; cbn; rewrite ?Ecc; fin; closer Sf).
   - (* NetFail *) cbn [step]. constructor; cbn; rewrite ?Ecc; fin; closer Sf.
   - (* Stop *)
     cbn [step]. destruct (started s && negb (closing s)) eqn:E; [|exact S].
@@ -620,11 +621,10 @@ Ltac own_cons := repeat (constructor; [first [exact I | reflexivity]|]); assumpt
 Ltac j5 Sk := unfold pendl; cbn; rewrite ?Z.eqb_refl; cbn; rewrite ?app_nil_r; first [exact Sk | rewrite Sk; rewrite ?app_nil_r; reflexivity].
 Ltac tidy Sk := try (own_cons; fail); try (j5 Sk; fail).
 
-Lemma complete_eq b s r t : q s = r :: t -> (b = true -> readyC s = 0) ->
+Lemma complete_eq b s r t : q s = r :: t -> readyC s = 0 ->
   complete b s r = set_readyC (set_pend (set_q s t) (if pend s =? r then 0 else pend s)) (readyC s + 1).
 Proof.
-  intros H Hb. unfold complete. rewrite H, Z.eqb_refl. cbn.
-  destruct b; cbn; [|reflexivity]. rewrite (Hb eq_refl). cbn. reflexivity.
+  intros H Hb. unfold complete. rewrite H, Z.eqb_refl. cbn. rewrite Hb. cbn. reflexivity.
 Qed.
 
 Lemma pendl_0 s : pend s = 0 -> pendl s = [].
@@ -680,7 +680,10 @@ Proof.
     assert (Hne : pend s <> 0) by congruence. destruct (J1' Hne) as [t Ht]. rewrite E2 in Ht.
     assert (Est : started s = true).
     { destruct (started s) eqn:X; [reflexivity|]. destruct (Sa eq_refl) as (P0 & _). congruence. }
-    rewrite (complete_eq false s r t Ht) by discriminate. unfold conclude.
+    assert (Hr0 : readyC s = 0).
+    { destruct Se as [_ P2]. destruct (Z.eq_dec (readyC s) 0) as [Z0|NZ]; [exact Z0|].
+      exfalso. apply Hne. apply Sb; [exact Est|left; lia]. }
+    rewrite (complete_eq false s r t Ht Hr0). unfold conclude.
     rewrite (pendl_n s Hne) in Sk.
     constructor; cbn; rewrite ?Ecc, ?E2, ?Z.eqb_refl; fin; tidy Sk.
     rewrite Sf, Ht; auto.
@@ -714,7 +717,7 @@ Proof.
     change (q (set_timer s (tmo s) false)) with (q s).
     destruct (negb (pend s =? 0)) eqn:Ep.
     + apply negb_true_iff, Z.eqb_neq in Ep. destruct (J1' Ep) as [t Ht]. rewrite Ht.
-      rewrite (complete_eq true (set_timer s (tmo s) false) (pend s) t Ht) by (intros _; exact R2).
+      rewrite (complete_eq true (set_timer s (tmo s) false) (pend s) t Ht) by exact R2.
       unfold conclude. cbn. rewrite Sc, Z.eqb_refl.
       rewrite pump_tail_idle; cbn; auto.
       2:{ right; left. destruct (rdy s) eqn:X; [|reflexivity]. exfalso. apply Ep. apply Sb; auto. }
@@ -876,12 +879,12 @@ Qed.
 Lemma reconnect_rearms s :
   conn s = false -> started s = true -> closing s = false ->
   (pend s <> 0 -> tmo (step Reconn s) = TShort (now s + timeout s)) /\
-  (pend s = 0 -> readyC (step Reconn s) = readyC s + 1).
+  (pend s = 0 -> 0 <= readyC s -> 1 <= readyC (step Reconn s)).
 Proof.
   intros H1 H2 H3. cbn [step]. rewrite H1, H2, H3. cbn.
-  split; intros H.
+  split; [intros H|intros H Hp].
   - apply Z.eqb_neq in H. rewrite H. reflexivity.
-  - rewrite H. reflexivity.
+  - rewrite H. cbn. destruct (1 <=? readyC s) eqn:E; [apply Z.leb_le in E; exact E|lia].
 Qed.
 
 (** disconnection parks the timer: no request times out while the client is offline (until the idle tick) *)
